@@ -1399,6 +1399,8 @@ func (r *Raft) InstallSnapshot(
 	// The received snapshot does not contain anything new.
 	if r.lastIncludedIndex >= request.LastIncludedIndex ||
 		r.lastApplied >= request.LastIncludedIndex {
+		// Acknowledge the chunk so that the leader moves on instead of sending it again.
+		response.BytesWritten = request.Offset
 		return nil
 	}
 
@@ -1656,8 +1658,8 @@ func (r *Raft) sendInstallSnapshot(id, address string) {
 
 	// Read a chunk of the snapshot from the file.
 	var buf bytes.Buffer
-	n, err := io.Copy(&buf, follower.snapshot)
-	if err != nil {
+	n, err := io.CopyN(&buf, follower.snapshot, snapshotChunkSize)
+	if err != nil && err != io.EOF {
 		if err := follower.snapshot.Close(); err != nil {
 			r.logger.Errorf("failed to close snapshot file: error = %v", err)
 		}
